@@ -161,7 +161,9 @@ def main(argv=None):
     n_unknown = sum(len(v) for v in unknown.values())
     for i, (key, vs) in enumerate(sorted(unknown.items(), key=lambda kv: kv[0])):
         if i >= 10:
-            print(f"... {len(unknown) - 10} further distinct violation signatures not written")
+            print(f"... {len(unknown) - 10} further distinct violation signatures (no replay file written):")
+            for key2, vs2 in sorted(unknown.items(), key=lambda kv: kv[0])[10:60]:
+                print(f"  more: signature={key2} cases={len(vs2)} detail={json.dumps(vs2[0]['detail'])[:300]}")
             break
         vs.sort(key=lambda v: len(json.dumps(v["case"])))  # smallest counterexample of this signature first
         path = emit_replay(prop, vs[0])
